@@ -75,6 +75,8 @@ var prevDayEndC1 = math.NaN()
 var prevDayEndCnt [3]float64
 var unstableDays, unstableEarlyDays, laterSubstepNitroCalls int
 var bookPre [5]float64
+var prevStage, prevNaos0, prevCropN float64
+var prevAkf, resprouts int
 var tableParams = map[uint64][3][21]float64{}
 var tableLevelRepeats int
 
@@ -421,6 +423,19 @@ func traceLine(work, line string, lineNo int, r *rng, waterEvery int) {
 				if !day.excluded && g.UMS < nday.nUms-1e-9*(1+math.Abs(nday.nUms)) {
 					oracleFail("negative-dissolution line=%d zeit=%d ums-before=%v ums-after=%v dsumm=%v", lineNo, zeit, nday.nUms, g.UMS, g.DSUMM)
 				}
+				// C07: the crop's N is never negative; when a permanent crop re-sprouts on its own (stage falls back from > 4
+				// outside a harvest) the N of the dying organs moves from the crop to the slow pool of the top layer: the pool
+				// does not gain more than the crop loses
+				if g.PESUM < -1e-9 || math.IsNaN(g.PESUM) {
+					oracleFail("crop-n-negative line=%d zeit=%d value=%v", lineNo, zeit, g.PESUM)
+				}
+				if g.DAUERKULT && prevStage > 4 && g.INTWICK.Num <= 2 && prevAkf == g.AKF.Index && prevDayEndZeit == zeit-1 {
+					resprouts++
+					if gain, loss := g.NAOS[0]-prevNaos0, prevCropN-g.PESUM; gain > loss+5 {
+						oracleFail("resprouting-creates-n line=%d zeit=%d pool-gain=%v crop-loss=%v", lineNo, zeit, gain, loss)
+					}
+				}
+				prevStage, prevAkf, prevNaos0, prevCropN = g.INTWICK.Num, g.AKF.Index, g.NAOS[0], g.PESUM
 				// C07: fertiliser applied is a cumulative total: it does not go down on an ordinary day
 				if !day.excluded && g.DSUMM < nday.nDsumm-1e-9*(1+math.Abs(nday.nDsumm)) {
 					oracleFail("applied-fertiliser-decreases line=%d zeit=%d before=%v after=%v autofert=%v", lineNo, zeit, nday.nDsumm, g.DSUMM, g.AUTOFERT)
@@ -482,5 +497,5 @@ func traceLine(work, line string, lineNo int, r *rng, waterEvery int) {
 	}
 	res := runProject(work, splitArgs(line))
 	hermes.VerifProbe = nil
-	emit(jobj{"k": "run", "line": lineNo, "success": res.Success, "err": res.Err, "days": days, "substeps": sub, "file_irrigations_checked": irrSeen, "table_route_level_repeats": tableLevelRepeats, "later_substep_nitro_calls": laterSubstepNitroCalls, "unstable_days": unstableDays, "unstable_early_days": unstableEarlyDays})
+	emit(jobj{"k": "run", "line": lineNo, "success": res.Success, "err": res.Err, "days": days, "substeps": sub, "file_irrigations_checked": irrSeen, "resprouting_events": resprouts, "table_route_level_repeats": tableLevelRepeats, "later_substep_nitro_calls": laterSubstepNitroCalls, "unstable_days": unstableDays, "unstable_early_days": unstableEarlyDays})
 }
